@@ -74,7 +74,7 @@ func BuildOverlay(repoDir, harnessDir string) (map[string][]byte, []string, erro
 }
 
 // SourcePkgs are dependencies executed from source rather than modelled.
-var SourcePkgs = []string{"errors", "github.com/pkg/errors"}
+var SourcePkgs = []string{"github.com/pkg/errors"}
 
 func Load(repoDir, harnessDir string, extraPatterns ...string) (*Program, error) {
 	ov, hpk, err := BuildOverlay(repoDir, harnessDir)
@@ -137,13 +137,16 @@ func Load(repoDir, harnessDir string, extraPatterns ...string) (*Program, error)
 	prog.Build()
 	P := &Program{Prog: prog, Fset: prog.Fset, Pkgs: map[string]*ssa.Package{}, TPkgs: map[string]*types.Package{}, RepoDir: repoDir,
 		MaxSteps: 200_000_000, MaxAlloc: 1 << 22, MaxDecisions: 4000, MaxConcretize: 600, Unwind: 64,
-		Solver: "z3", TimeoutMs: 20000, Known: map[string][]string{}, synth: map[string]*types.Named{}}
+		Solver: "cvc5", TimeoutMs: 20000, Known: map[string][]string{}, synth: map[string]*types.Named{}}
 	for _, p := range prog.AllPackages() {
 		P.Pkgs[p.Pkg.Path()] = p
 		P.TPkgs[p.Pkg.Path()] = p.Pkg
 	}
 	P.OpaquePkgs = []string{"github.com/rs/zerolog", RepoModule + "/metrics", "github.com/prometheus/", "log", "github.com/kr/pretty"}
 	P.registerIntrinsics()
+	if err := P.loadSchema(); err != nil {
+		return nil, err
+	}
 	return P, nil
 }
 
